@@ -29,4 +29,13 @@ func init() {
 		Bounds:     "params (scenario, pre-emption budget); schedules = run-to-block plus up to `pre` pre-emptions before mutex / RWMutex acquisitions and unbuffered channel sends; 2 client goroutines + id generator",
 		Assumes:    []string{"threads are atomic between visible operations", "file-system model of C10", "native replay by repetition (100 rounds on a real directory)"},
 	})
+	register(Harness{
+		Prop: "C09", Pkg: "storage/mem", Func: "VerifC09FirstDeliveries",
+		Quick:    [][]int64{{2}},
+		Thorough: [][]int64{{3}, {4}},
+		Unwind:   40,
+		Desc:     "concurrent deliveries to a mailbox that does not exist yet (creation of the mailbox races): every acknowledged delivery is stored, ids distinct",
+		Bounds:   "param (pre-emption budget); 2 delivering goroutines under the engine (8 natively, 400 rounds)",
+		Assumes:  []string{"threads are atomic between visible operations", "native replay by repetition"},
+	})
 }
